@@ -298,8 +298,9 @@ func (p *envParser) parseMarkerExpr() (marker, error) {
 		right: r,
 	}
 
-	// ~= can only compare versions.
-	if (l.version == nil || r.version == nil) && o == markerOpTildeEqual {
+	// ~= can only compare versions. (A left operand that is not a version
+	// is accepted: it simply never satisfies the specifier, see Eval.)
+	if r.version == nil && o == markerOpTildeEqual {
 		return nil, fmt.Errorf("~= must compare versions, got %s %s %s", l, o, r)
 	}
 
@@ -438,7 +439,7 @@ func (me markerExpr) Eval(extras map[string]bool) bool {
 	// not a version (sys_platform > "3.9") never satisfies an ordering.
 	if me.right.version != nil && me.left.version == nil {
 		switch me.op {
-		case markerOpNotEqual, markerOpEqualEqual:
+		case markerOpNotEqual, markerOpEqualEqual, markerOpTildeEqual:
 			return false
 		case markerOpLessEqual, markerOpLess, markerOpGreaterEqual, markerOpGreater:
 			// A wildcard only forms a specifier with == and !=.
